@@ -28,7 +28,8 @@ package keeper
 //@       (exists ((j Int)) (! (and (<= 0 j) (< j n) (= (select (arr_Slc_Int ids) (+ (off_Slc_Int ids) j)) k)) :pattern ((select (arr_Slc_Int ids) (+ (off_Slc_Int ids) j)))))) :pattern ((select val1 k)))))
 
 //@ func (msgServer).ApproveCancellation
-//@ property C05
+// C06: the enqueue side of the hand-over — one notice per id, ids pairwise different (`distinct`, `queue_notices`, `queue_len`)
+//@ property C05 C06
 //@ writesite bitcoin.Withdrawals edge: wd_edge(has(st.bitcoin.Withdrawals, key), st.bitcoin.Withdrawals[key].Status, val.Status)
 //@ writesite bitcoin.Withdrawals cancel_only: has(st.bitcoin.Withdrawals, key) && st.bitcoin.Withdrawals[key].Status == types.WITHDRAWAL_STATUS_CANCELING && val.Status == types.WITHDRAWAL_STATUS_CANCELED
 //@ let CANCELING = types.WITHDRAWAL_STATUS_CANCELING
@@ -59,7 +60,8 @@ package keeper
 // whose txid equals req.Txid; the amounts reported to the execution layer are P.Output[t].Values.
 
 //@ func (msgServer).FinalizeWithdrawal
-//@ property C05
+// C06: the enqueue side of the hand-over — one notice per id, ids pairwise different (`distinct`, `queue_notices`, `queue_len`)
+//@ property C05 C06
 //@ let PROCESSING = types.WITHDRAWAL_STATUS_PROCESSING
 //@ let PAID = types.WITHDRAWAL_STATUS_PAID
 //@ let W = st.bitcoin.Withdrawals
